@@ -122,6 +122,28 @@ def flow_blocks(rnd, n):
     return out[:n]
 
 
+def ternary_blocks(rnd, n):
+    """blocks around a three-operand instruction (ADDMOD/MULMOD) with repeated operands, so that few stack cells are
+    needed and the instruction can execute on a full stack: the transitions of arity > 2 (cells freed, operands in
+    order) are otherwise hardly exercised by the small-vocabulary family"""
+    T = lambda txt: evm.from_plain_string(txt)
+    fam = []
+    for op in ("ADDMOD", "MULMOD"):
+        for pre in ("DUP1 DUP1 DUP1", "DUP1 DUP2 DUP1", "DUP2 DUP2 DUP2", "DUP3 DUP3 DUP3", "PUSH 1 DUP2 DUP3", "DUP1 PUSH 2 DUP3",
+                    "DUP2 DUP1 DUP1", ""):
+            for post in ("", "DUP2 SWAP1", "DUP1", "SWAP1 POP", "SWAP1", "DUP2", "PUSH 0 MSTORE"):
+                fam.append(T(" ".join(x for x in (pre, op, post) if x)))
+    core = [T("DUP1 DUP1 DUP1 ADDMOD DUP2 SWAP1"), T("DUP1 DUP1 DUP1 MULMOD DUP2 SWAP1"), T("DUP1 DUP1 DUP1 ADDMOD"),
+            T("ADDMOD DUP1"), T("DUP3 DUP3 DUP3 MULMOD SWAP1 POP")]
+    out, seen = [], set()
+    for b in core + rnd.sample(fam, min(len(fam), max(0, n - len(core)))):
+        t = tuple(b)
+        if t not in seen:
+            seen.add(t)
+            out.append(b)
+    return out[:n]
+
+
 def encode(key, S, params):
     """run the real encoder; returns (BlockOptimizer, smt2 text)"""
     from smt_encoding.block_optimizer import BlockOptimizer
@@ -323,6 +345,8 @@ def build_cases(quick, seed):
             cases.append({"block": b, "opts": o, "_group": g, "kind": "load-store-blocks", "_cpu": 60})
         for b in flow_blocks(random.Random(seed + 2000 + oi), 12 if quick else 120):
             cases.append({"block": b, "opts": o, "_group": g, "kind": "load-flow-store-blocks", "_cpu": 60})
+        for b in ternary_blocks(random.Random(seed + 3000 + oi), 8 if quick else 60):
+            cases.append({"block": b, "opts": o, "_group": g, "kind": "ternary-blocks", "_cpu": 60})
         for i in range(n_rand):
             b, k = gen.gen_block(rnd, "short")
             cases.append({"block": b[:6], "opts": o, "_group": g, "kind": "short-random", "_cpu": 60})
